@@ -36,6 +36,10 @@ pub struct DocSpec {
     /// (path of a table written with its own [header] / [[header]], byte offset of the header's `[`)
     #[serde(default)]
     pub headers: Vec<(Vec<PathSeg>, usize)>,
+    /// parallel to `headers`: where that table's span is expected to end (end of the last key/value
+    /// line written under the header; the header's closing bracket when there is none)
+    #[serde(default)]
+    pub header_ends: Vec<usize>,
 }
 
 #[derive(Clone, Debug, PartialEq, Eq, Hash, Serialize, Deserialize, PartialOrd, Ord)]
